@@ -4,6 +4,7 @@ Driver/Main.lean — replays line-protocol traces on the model (one output line 
 import ChitchatModel.Driver.Sexp
 import ChitchatModel.Model.Listener
 import ChitchatModel.Model.Select
+import ChitchatModel.Model.Server
 namespace Chitchat.Driver
 open Chitchat
 
@@ -256,6 +257,31 @@ def step (w : World) (cmd : Sexp) : World × String :=
     | some peers, some live, some dead, some seeds, some nodes, some d, some sd, some draw =>
       if selCheck ⟨peers, live, dead, seeds⟩ (nodes, d, sd) draw then (w, "(sel ok)") else (w, "(sel bad)")
     | _, _, _, _, _, _, _, _ => bad w "selcheck"
+  | .list [.atom "server", seeds, .list (.atom "sends" :: sendScript), .list (.atom "events" :: evs)] =>
+    let rSend := fun (x : Sexp) => match x with
+      | .atom "ok" => some SendResult.ok
+      | .atom "err" => some SendResult.err
+      | .atom "panic" => some SendResult.panic
+      | _ => none
+    let rEv := fun (x : Sexp) => match x with
+      | .atom "tick" => some SrvEvent.tick
+      | .atom "syn1" => some (SrvEvent.recvSyn true)
+      | .atom "syn0" => some (SrvEvent.recvSyn false)
+      | .atom "ack" => some SrvEvent.recvAck
+      | .atom "junk" => some SrvEvent.recvUndecodable
+      | .atom "fatal" => some SrvEvent.recvFatal
+      | .atom "gossip" => some SrvEvent.cmdGossip
+      | .atom "shutdown" => some SrvEvent.cmdShutdown
+      | .atom "lock" => some SrvEvent.userLock
+      | _ => none
+    match seeds.nat?, mapM? rSend sendScript, mapM? rEv evs with
+    | some seeds, some script, some evs =>
+      let f := fun (k : Nat) => if script.length = 0 then SendResult.ok else script.getD (k % script.length) SendResult.ok
+      let r := srvRun seeds f evs
+      let st := match r.status with
+        | .running => "running" | .stoppedOk => "ok" | .stoppedErr => "err" | .panicked => "panicked"
+      (w, pList "srv" [st, toString r.heartbeat, toString r.sends])
+    | _, _, _ => bad w "server"
   | .list [.atom "sub", slot, idx, pfx] =>
     match slot.nat?, idx.nat?, pfx.bytes? with
     | some slot, some idx, some pfx => (w.setListeners slot ((w.listenersOf slot).subscribe pfx idx), "(ok)")
